@@ -123,6 +123,13 @@ func (c *c13) Enabled() []seqx.Event {
 			ev = append(ev, nm(seqx.Ev("Est", int64(p)), "Est(%c)", 'A'+p))
 			continue
 		}
+		if p == 1 && c.tier != "thorough" {
+			// the second session is there to catch cross-session emission: a small alphabet suffices
+			ev = append(ev, nm(seqx.Ev("Buf", int64(p), 1, 0), "Buf(s%d,pdr 1)", s.k))
+			ev = append(ev, nm(seqx.Ev("UpdFAR", int64(p), int64(aFORW)), "UpdFAR(s%d,FORW)", s.k))
+			ev = append(ev, nm(seqx.Ev("Del", int64(p)), "Del(s%d)", s.k))
+			continue
+		}
 		for _, pdr := range []int64{1, 2} {
 			ev = append(ev, nm(seqx.Ev("Buf", int64(p), pdr, 0), "Buf(s%d,pdr %d)", s.k, pdr))
 			ev = append(ev, nm(seqx.Ev("Buf", int64(p), pdr, 1), "Buf(s%d,pdr %d,NOCP)", s.k, pdr))
@@ -164,13 +171,13 @@ func actName(a uint8) string {
 
 func (c *c13) Key() string {
 	var sb strings.Builder
-	sb.WriteString(c.W.V.Dump(pfcp.DumpOpt{NoTrans: true, Label: c.label, NoSeq: true}))
+	sb.WriteString(c.W.V.Dump(pfcp.DumpOpt{NoTrans: true, Label: c.label, NoSeq: true, QLenOnly: true}))
 	sb.WriteString("K " + c.W.K.Dump(c.label))
 	for p := 0; p < 2; p++ {
 		if s := c.sess[p]; s != nil {
 			var qs []string
 			for pdr, q := range s.q {
-				qs = append(qs, fmt.Sprintf("%d:%d/%d", pdr, len(q), s.cnt[pdr]))
+				qs = append(qs, fmt.Sprintf("%d:%d", pdr, len(q))) // payload numbering is a renaming: not part of the state
 			}
 			sort.Strings(qs)
 			fmt.Fprintf(&sb, "\nref s%d act=%#x pdr=%v q=%v", s.k, s.action, s.pdr, qs)
@@ -218,14 +225,18 @@ func (c *c13) Apply(e seqx.Event) seqx.StepResult {
 		for i := 0; i < n; i++ {
 			s.cnt[pdr]++
 			pl := payload(s, pdr, s.cnt[pdr])
-			o = c.W.Notify(simk.BufferMsg(s.up, pdr, action, []byte(pl)))
-			if j.Crashed(c.W.World, o) {
-				break
-			}
 			if len(s.q[pdr]) < 512 {
 				s.q[pdr] = append(s.q[pdr], pl)
 			} else {
 				j.Tag("queue-full-drop-newest")
+			}
+			if i+1 < n {
+				c.W.NotifyNoSettle(simk.BufferMsg(s.up, pdr, action, []byte(pl)))
+				continue
+			}
+			o = c.W.Notify(simk.BufferMsg(s.up, pdr, action, []byte(pl)))
+			if j.Crashed(c.W.World, o) {
+				break
 			}
 			for q := range o.Out {
 				for _, m := range o.Out[q] {
